@@ -75,6 +75,9 @@ def run_tests(d, tgt):
     return ok, r.stdout[-1500:]
 
 
+ALL_PROPS = ['C%02d' % i for i in range(1, 21)]
+
+
 def main():
     args = sys.argv[1:]
     only = args[args.index('--only') + 1] if '--only' in args else None
@@ -122,7 +125,8 @@ def main():
                     results.append({'id': m['id'], 'kind': kind, 'prop': m['prop'], 'rule': m['rule'], 'status': status, 'tests_green': tests})
                 else:
                     noisy = []
-                    for prop in m['props']:
+                    props = ALL_PROPS if '--all-props' in args else m['props']
+                    for prop in props:
                         rc, out = run_check(d, prop, evdir)
                         if rc != 0:
                             noisy.append((prop, out))
